@@ -13,7 +13,7 @@ arrives while run() is still loading a large cache file of the previous run, ear
 (stop/start in PID namespaces with the pid file kept, same_pid_cycle), start-up stops (the signal arrives while main is
 still reading its options, startup_stop_cycle).
 """
-import json, os, random, signal, socket, struct, subprocess, sys, time, shutil, urllib.request
+import json, os, random, re, signal, socket, struct, subprocess, sys, time, shutil, urllib.request
 import check as C
 
 VFLOW = os.path.join(C.BIN, "vflow")
@@ -431,6 +431,46 @@ def cycle(n, seed, binary, pattern=None):
                 break
             time.sleep(0.05)
         time.sleep(0.1)
+        # half of the cycles go on to a THIRD run: in the second run (cache loaded from the file) some of the probed
+        # templates are announced again under their ids with another layout (the fields in reverse order), data for them is
+        # sent and acknowledged, then the collector is stopped again: the file must now hold the NEW definitions ("every
+        # template acknowledged before the signal" — a dump skipped because "nothing new arrived" keeps the old ones: seed C15-h)
+        redefined = []
+        if rng.random() < 0.5:
+            st_b = vf.stats()
+            for m in probes[: 4]:
+                proto, ipl, tid, fields, nscope = m
+                if len(fields) < 2 or fields[::-1] == fields or nscope:
+                    continue
+                m2 = (proto, ipl, tid, fields[::-1], 0)
+                sx = next(x for x in exps if x.getsockname()[0].endswith(".%d" % ipl))
+                msg = (ipfix_msg if proto == "ipfix" else v9_msg)([tpl_set(proto, tid, m2[3], 0)], seq)
+                seq += 1
+                sx.sendto(msg, ("127.0.0.1", vf.ports[0] if proto == "ipfix" else vf.ports[3]))
+                redefined.append(m2)
+            if redefined and st_b is not None:
+                # acknowledged: the counters have moved by the announcements (and then by the data)
+                def moved(k):
+                    t9 = time.time()
+                    while time.time() - t9 < 5:
+                        s9 = vf.stats()
+                        try:
+                            if s9["IPFIX"]["DecodedCount"] + s9["NetflowV9"]["DecodedCount"] >= st_b["IPFIX"]["DecodedCount"] + st_b["NetflowV9"]["DecodedCount"] + k:
+                                return True
+                        except (KeyError, TypeError):
+                            return False
+                        time.sleep(0.02)
+                    return False
+                if not moved(len(redefined)):
+                    redefined = []
+                else:
+                    for m2 in redefined:
+                        data(m2)
+                    if not moved(2 * len(redefined)):
+                        redefined = []
+                time.sleep(0.35)
+            else:
+                redefined = []
         st = vf.stats()
         rc2, lat2 = vf.stop(signal.SIGTERM)
         log2 = vf.log()
@@ -448,6 +488,51 @@ def cycle(n, seed, binary, pattern=None):
             return "probes-lost", "", sample
         if unknown or decoded < len(probes):
             return "exit=0 restart-undecoded", "fail:restart %d data datagrams sent without templates after the restart, %d decoded, %d reported unknown" % (len(probes), decoded, unknown), sample
+        if redefined and not unknown and decoded >= len(probes):
+            # third run: data only, for the redefined templates; each must be published with the elements in the NEW order
+            st3 = vf.start()
+            if st3 == "crash":
+                return "restart3-crashed", "fail:restart the collector crashed when started a third time on its own cache files: " + vf.log()[-300:].replace("\n", " | "), sample
+            if st3:
+                before = set(published_lines(vf.log()))
+                for m2 in redefined:
+                    data(m2)
+                t3 = time.time()
+                got3 = []
+                while time.time() - t3 < 5:
+                    lg3 = vf.log()
+                    got3 = [l for l in published_lines(lg3) if l not in before]
+                    if len(got3) + lg3.count("unknown ipfix template") + lg3.count("unknown netflow template") >= len(redefined):
+                        break
+                    time.sleep(0.05)
+                st3s = vf.stats()
+                vf.stop(signal.SIGTERM)
+                try:
+                    recv3 = st3s["IPFIX"]["UDPCount"] + st3s["NetflowV9"]["UDPCount"]
+                except (KeyError, TypeError):
+                    recv3 = None
+                sample["redefined_before_second_stop"] = len(redefined)
+                if recv3 is not None and recv3 >= len(redefined):
+                    wants = {}
+                    for proto, ipl, tid, fields, nscope in redefined:
+                        wants.setdefault((proto == "ipfix", "127.0.0.%d" % ipl), []).append([e for e, _ in fields])
+                    bad3 = None
+                    n_ok = 0
+                    for l in got3:
+                        agent = re.search(r'"AgentID":"([^"]+)"', l)
+                        elems = [int(x) for x in re.findall(r'\{"I":(\d+),', l[l.find('"DataSets"'):])]
+                        isip = '"ExportTime"' in l
+                        cands = wants.get((isip, agent.group(1) if agent else ""), [])
+                        # one record per data set here: the element sequence of the line is the record's
+                        nrec = l.count("],[") + 1
+                        rec = elems[: len(elems) // max(nrec, 1)] if nrec else elems
+                        if any(rec == c for c in cands):
+                            n_ok += 1
+                        elif any(sorted(rec) == sorted(c) for c in cands):
+                            bad3 = "exporter %s: published with elements %s, the definition acknowledged before the second stop has them in the order %s" % (agent.group(1) if agent else "?", rec, [c for c in cands if sorted(c) == sorted(rec)][0])
+                    sample["decoded_with_redefinition_after_third_start"] = n_ok
+                    if bad3:
+                        return "exit=0 stale-definition", "fail:restart a template announced again (another layout) and acknowledged in the second run is decoded with its OLD layout after the next restart: " + bad3, sample
         for s in exps:
             s.close()
         return "exited=1 done=1 panic=0 dumped=1", "ok", sample
